@@ -74,7 +74,7 @@ func TestMain(m *testing.M) {
 		childMain()
 		return
 	}
-	rec.Rule("cases = (entry point in {verify with integrity and chain, is-signed probe, client transform read to the end, server-side Sign on an upload body, type detection, certificate loader}, signer module forced or detected, input) where input = 1-4 structure-aware corruptions (offset/length-looking fields set to boundary values, bit flips, truncation, chunk duplication / deletion / zeroing / insertion, cross-format splices) of a valid unsigned or signed artefact of every supported type (fixtures and generated) or of the upload stream its client transform produces; each case runs in an isolation child under a 2 GiB address-space cap; oracle = child alive, no panic in any goroutine, total allocation <= 96 MiB + 512 x input size, CPU <= 15 s + 20 ms/KiB, not blocked; non-trivial = the corrupted input differs from its base and still carries the type's magic (the parser proper is entered) or is an upload body; distinct = hash of (entry, module, input)")
+	rec.Rule("cases = (entry point in {verify with integrity and chain, is-signed probe, client transform read to the end, server-side Sign on an upload body, type detection, certificate loader}, signer module forced or detected, input) where input = 1-4 structure-aware corruptions (offset/length-looking fields set to boundary values, bit flips, truncation, chunk duplication / deletion / zeroing / insertion, cross-format splices) of a valid unsigned or signed artefact of every supported type (fixtures and generated) or of the upload stream its client transform produces; each case runs in an isolation child under a 2 GiB address-space cap; oracle = child alive, no panic in any goroutine, total allocation <= 96 MiB + 512 x input size, CPU <= 15 s + 20 ms/KiB, not blocked; container-aware corruption (ZIP member re-stored with a valid CRC, xar table of contents re-deflated, XML tree mutations) in one case of four; non-trivial = the corrupted input differs from its base and still carries the type's magic (the parser proper is entered) or is an upload body; distinct = hash of (entry, module, input)")
 	rec.Assume("resource proportionality is checked against fixed generous multiples, not asymptotically; wall-clock time is never used as a verdict (a blocked child is recognised by zero CPU progress while sleeping)")
 	var err error
 	workDir, err = os.MkdirTemp("", "c11-")
